@@ -7,6 +7,7 @@
   symbol after expanding every defined name (a definition may mention names defined before it).
 -/
 import QExPy.Lemmas.Units
+import QExPy.Lemmas.UnitsDefs
 
 namespace QExPy
 open U
@@ -123,5 +124,237 @@ example : OrderedR [("J".toList, [("N".toList, 1), ("m".toList, 1)]),
   simp only [OrderedR]
   decide
 
+
+/-! ### the theorem over whole formulas, definitions active -/
+
+/-- packing a result (in base symbols) under a defined name does not change its dimension -/
+theorem packOr_dim (rdefs : Defs) (h : OrderedR rdefs) (hdw : ∀ q ∈ rdefs, WF q.2) (x : Units)
+    (hx : WF x) (hb : BaseU rdefs x) (t : Sym) :
+    dimU rdefs (packOr rdefs.reverse x) t = expOf x t := by
+  rcases C18_named_only_if_power rdefs.reverse x hx with ⟨n, k, d, _, hp, hk, hm, hpow⟩ | ⟨_, hp⟩
+  · rw [hp, dimU_single]
+    have hm' : (n, d) ∈ rdefs := List.mem_reverse.mp hm
+    have hl := lookupDef_of_mem rdefs h n d hm'
+    rw [(unfolds_dimSym rdefs h).2 n d hl t]
+    show k * dimU rdefs d t = _
+    have hwd : WF d := hdw (n, d) hm'
+    rw [dimU_support rdefs h d hwd ?_ t, hpow t]
+    intro p hp hp0
+    have hne : expOf x p.1 ≠ 0 := by
+      rw [hpow, expOf_of_mem d hwd p.1 p.2 hp]
+      exact mul_ne_zero hk hp0
+    exact hb p.1 (mem_keys_of_expOf_ne_zero x p.1 hne)
+  · rw [hp]
+    exact dimU_base rdefs h x hx hb t
+
+/-- the operand is a plain number or the library reports a non-empty unit for it -/
+def HasUnitD (defs : Defs) (t : UTree) : Prop :=
+  isConstT t = true ∨ ∃ r, unitOf defs t = some r ∧ r.1 ≠ []
+
+/-- the domain of `C18_dim_preserved`: known operators, every non-constant operand of every
+    operation carries a non-empty unit (the limitation of C08), and the operands of + and − have
+    the same *dimension* (or one of them is a plain number) — their units may be written in
+    named, expanded or mixed form -/
+inductive DomD (rdefs : Defs) : UTree → Prop
+  | leaf (u : Units) : DomD rdefs (.leaf u)
+  | const : DomD rdefs .const
+  | powc (a : UTree) (k : Rat) : DomD rdefs a → DomD rdefs (.powc a k)
+  | un (op : String) (a : UTree) : DomD rdefs a → HasUnitD rdefs.reverse a →
+      (opFun op = some .neg ∨ opFun op = some .sqrt) → DomD rdefs (.un op a)
+  | bin (op : String) (a b : UTree) : DomD rdefs a → DomD rdefs b →
+      HasUnitD rdefs.reverse a → HasUnitD rdefs.reverse b →
+      (opFun op = some .mul ∨ opFun op = some .div ∨
+        (opFun op = some .addsub ∧
+          (isConstT a = true ∨ isConstT b = true ∨ ∀ s, dimT rdefs a s = dimT rdefs b s))) →
+      DomD rdefs (.bin op a b)
+
+theorem all_guard_D (defs : Defs) (a : UTree) (u : Units) (w : Nat)
+    (hr : unitOf defs a = some (u, isConstT a, w)) (h : HasUnitD defs a) :
+    (!u.isEmpty || isConstT a) = true := by
+  rcases h with h | ⟨r, h1, h2⟩
+  · rw [h]; simp
+  · rw [hr] at h1
+    cases h1
+    cases u with
+    | nil => exact absurd rfl h2
+    | cons => simp
+
+theorem const_unit (defs : Defs) (a : UTree) (hc : isConstT a = true) (u : Units) (c : Bool)
+    (w : Nat) (hr : unitOf defs a = some (u, c, w)) : u = [] := by
+  cases a <;> simp_all [isConstT, unitOf]
+
+theorem const_dim (rdefs : Defs) (a : UTree) (hc : isConstT a = true) (s : Sym) :
+    dimT rdefs a s = 0 := by
+  cases a <;> simp_all [isConstT, dimT]
+
+/-- **C18 (main: the dimension is preserved over whole formulas).** With an acyclic set of
+    definitions active (names defined in terms of earlier names allowed; each definition a
+    key-unique map, as every Python dict), for every formula over ×, ÷, sqrt, unary −, constant
+    powers and + / − with dimensionally equal operands, whose leaves carry units in named,
+    expanded or mixed form: the library derives a unit without raising and without a mismatch
+    warning, and expanding all defined names in that unit (`dimU`) gives, for every symbol,
+    exactly the result of dimensional analysis on the expanded operand units (`dimT`). -/
+theorem C18_dim_preserved (rdefs : Defs) (h : OrderedR rdefs) (hdw : ∀ q ∈ rdefs, WF q.2)
+    (t : UTree) (hd : DomD rdefs t) :
+    ∃ u, unitOf rdefs.reverse t = some (u, isConstT t, 0) ∧
+      ∀ s, dimU rdefs u s = dimT rdefs t s := by
+  induction hd with
+  | leaf u => exact ⟨u, rfl, fun _ => rfl⟩
+  | const => exact ⟨[], rfl, fun _ => rfl⟩
+  | powc a k _ ih =>
+    obtain ⟨u, hu, hdim⟩ := ih
+    refine ⟨powConst u k, by simp only [unitOf, hu]; rfl, fun s => ?_⟩
+    rw [dimU_powConst, hdim s]; rfl
+  | un op a _ hua hop ih =>
+    obtain ⟨u, hu, hdim⟩ := ih
+    obtain ⟨a', ha1, ha2, ha3, ha4⟩ := C18_unpack_sound rdefs h u
+    have hba : BaseU rdefs a' := fun k hk => by rw [← lookupDef_reverse rdefs h]; exact ha4 k hk
+    have hall : [(u, isConstT a, 0)].all (fun r => !r.1.isEmpty || r.2.1) = true := by
+      simpa using all_guard_D _ a u 0 hu hua
+    have e1 : unitOf rdefs.reverse (.un op a) = (dispatch op [a']).map
+        fun r => (packOr rdefs.reverse (filterZero r.1), false, 0 + (if r.2 then 1 else 0)) := by
+      simp only [unitOf, hu]
+      rw [guarded_true_defs _ op _ _ hall]
+      simp only [List.map, operate_un _ op u a' ha1]
+      cases dispatch op [a'] <;> rfl
+    rcases hop with hop | hop
+    · refine ⟨packOr rdefs.reverse (filterZero a'), ?_, fun s => ?_⟩
+      · rw [e1]; simp only [dispatch, hop, applyFun, negU]; rfl
+      · rw [packOr_dim rdefs h hdw _ (WF_filterZero _ ha2) hba.filterZero,
+          expOf_filterZero _ _ ha2, ha3, hdim s]
+        simp [dimT, hop]
+    · refine ⟨packOr rdefs.reverse (filterZero (sqrtU a')), ?_, fun s => ?_⟩
+      · rw [e1]; simp only [dispatch, hop, applyFun]; rfl
+      · rw [packOr_dim rdefs h hdw _ (WF_filterZero _ (WF_sqrtU _ ha2)) hba.sqrtU.filterZero,
+          expOf_filterZero _ _ (WF_sqrtU _ ha2), expOf_sqrtU, ha3, hdim s]
+        simp [dimT, hop]
+  | bin op a b _ _ hua hub hop iha ihb =>
+    obtain ⟨u, hu, hdu⟩ := iha
+    obtain ⟨v, hv, hdv⟩ := ihb
+    obtain ⟨a', ha1, ha2, ha3, ha4⟩ := C18_unpack_sound rdefs h u
+    obtain ⟨b', hb1, hb2, hb3, hb4⟩ := C18_unpack_sound rdefs h v
+    have hba : BaseU rdefs a' := fun k hk => by rw [← lookupDef_reverse rdefs h]; exact ha4 k hk
+    have hbb : BaseU rdefs b' := fun k hk => by rw [← lookupDef_reverse rdefs h]; exact hb4 k hk
+    have hall : [(u, isConstT a, 0), (v, isConstT b, 0)].all
+        (fun r => !r.1.isEmpty || r.2.1) = true := by
+      simp only [List.all_cons, List.all_nil, Bool.and_true, Bool.and_eq_true]
+      exact ⟨all_guard_D _ a u 0 hu hua, all_guard_D _ b v 0 hv hub⟩
+    have e1 : unitOf rdefs.reverse (.bin op a b) = (dispatch op [a', b']).map
+        fun r => (packOr rdefs.reverse (filterZero r.1), false, 0 + 0 + (if r.2 then 1 else 0)) := by
+      simp only [unitOf, hu, hv]
+      rw [guarded_true_defs _ op _ _ hall]
+      simp only [List.map, operate_bin _ op u v a' b' ha1 hb1]
+      cases dispatch op [a', b'] <;> rfl
+    -- the result `x` of the operator on the expanded operands, then filter + pack
+    have fin : ∀ (x : Units), WF x → BaseU rdefs x → ∀ s,
+        dimU rdefs (packOr rdefs.reverse (filterZero x)) s = expOf x s := fun x hx hbx s => by
+      rw [packOr_dim rdefs h hdw _ (WF_filterZero _ hx) hbx.filterZero, expOf_filterZero _ _ hx]
+    rcases hop with hop | hop | ⟨hop, hsame⟩
+    · refine ⟨packOr rdefs.reverse (filterZero (mul a' b')), ?_, fun s => ?_⟩
+      · rw [e1]; simp only [dispatch, hop, applyFun]; rfl
+      · rw [fin _ (WF_mul _ _) (hba.mul hbb), expOf_mul _ _ _ ha2 hb2, ha3, hb3, hdu s, hdv s]
+        simp [dimT, hop]
+    · refine ⟨packOr rdefs.reverse (filterZero (div a' b')), ?_, fun s => ?_⟩
+      · rw [e1]; simp only [dispatch, hop, applyFun]; rfl
+      · rw [fin _ (WF_div _ _) (hba.div hbb), expOf_div _ _ _ ha2 hb2, ha3, hb3, hdu s, hdv s]
+        simp [dimT, hop]
+    · -- + / −
+      -- a plain number has the empty unit, which expands to the empty unit
+      have hconstA : isConstT a = true → a' = [] := fun hc => by
+        have := const_unit _ a hc u _ _ hu
+        subst this
+        rw [unpack_empty] at ha1
+        exact (Option.some.inj ha1).symm
+      by_cases hae : a' = []
+      · subst hae
+        refine ⟨packOr rdefs.reverse (filterZero b'), ?_, fun s => ?_⟩
+        · rw [e1]
+          simp only [dispatch, hop, applyFun, (addSub_empty b').1]; rfl
+        · rw [fin _ hb2 hbb, hb3, hdv s]
+          by_cases hca : isConstT a = true
+          · simp [dimT, hop, hca]
+          · -- a is not a number but its unit expands to nothing: dimension 0 everywhere
+            have ha0 : dimT rdefs a s = 0 := by rw [← hdu s, ← ha3 s]; rfl
+            have hb0 : dimT rdefs b s = dimT rdefs a s := by
+              rcases hsame with hc | hc | hc
+              · exact absurd hc hca
+              · rw [const_dim rdefs b hc s, ha0]
+              · exact (hc s).symm
+            simp [dimT, hop, hca, hb0]
+      · have hca : isConstT a = false := by
+          cases hc : isConstT a with
+          | false => rfl
+          | true => exact absurd (hconstA hc) hae
+        by_cases hbe : b' = []
+        · subst hbe
+          refine ⟨packOr rdefs.reverse (filterZero a'), ?_, fun s => ?_⟩
+          · rw [e1]
+            simp only [dispatch, hop, applyFun, (addSub_empty a').2]; rfl
+          · rw [fin _ ha2 hba, ha3, hdu s]
+            simp [dimT, hop, hca]
+        · have hcb : isConstT b = false := by
+            cases hc : isConstT b with
+            | false => rfl
+            | true =>
+              exfalso
+              have := const_unit _ b hc v _ _ hv
+              subst this
+              rw [unpack_empty] at hb1
+              exact hbe (Option.some.inj hb1).symm
+          have hsame' : ∀ s, dimT rdefs a s = dimT rdefs b s := by
+            rcases hsame with hc | hc | hc
+            · rw [hca] at hc; cases hc
+            · rw [hcb] at hc; cases hc
+            · exact hc
+          have hequiv : Equiv a' b' := fun s => by
+            rw [ha3, hb3, hdu s, hdv s, hsame' s]
+          have hadd := addSub_equiv a' b' ha2 hb2 hae hequiv
+          refine ⟨packOr rdefs.reverse (filterZero a'), ?_, fun s => ?_⟩
+          · rw [e1]; simp only [dispatch, hop, applyFun, hadd]; rfl
+          · rw [fin _ ha2 hba, ha3, hdu s]
+            simp [dimT, hop, hca]
+
+/-- non-vacuity of `C18_dim_preserved`: with N = kg·m·s⁻² and J = N·m, the formula
+    `[J] + [N]·[m]` (named plus mixed form) is in the domain -/
+example : DomD [("J".toList, [("N".toList, 1), ("m".toList, 1)]),
+      ("N".toList, [("kg".toList, 1), ("m".toList, 1), ("s".toList, -2)])]
+    (.bin "add" (.leaf [("J".toList, 1)])
+      (.bin "mul" (.leaf [("N".toList, 1)]) (.leaf [("m".toList, 1)]))) := by
+  have hm : opFun "mul" = some .mul := by decide
+  have hadd : opFun "add" = some .addsub := by decide
+  obtain ⟨R, hR⟩ : ∃ R : Defs, R = [("J".toList, [("N".toList, (1 : Rat)), ("m".toList, 1)]),
+      ("N".toList, [("kg".toList, (1 : Rat)), ("m".toList, 1), ("s".toList, -2)])] := ⟨_, rfl⟩
+  rw [← hR]
+  have hord : OrderedR R := by
+    rw [hR]; simp only [OrderedR]; decide
+  have hdw : ∀ q ∈ R, WF q.2 := by
+    intro q hq
+    rw [hR] at hq
+    simp only [List.mem_cons, List.not_mem_nil, or_false] at hq
+    rcases hq with rfl | rfl <;> simp only [WF, List.map] <;> decide
+  have n1 : ¬ ("N".toList = "J".toList) := by decide
+  have n2 : ¬ ("m".toList = "J".toList) := by decide
+  have n3 : ¬ ("m".toList = "N".toList) := by decide
+  have n4 : ¬ ("m".toList = "kg".toList) := by decide
+  have n5 : ¬ ("s".toList = "kg".toList) := by decide
+  have l0 : HasUnitD R.reverse (.leaf [("J".toList, 1)]) := Or.inr ⟨_, rfl, by simp⟩
+  have l1 : HasUnitD R.reverse (.leaf [("N".toList, 1)]) := Or.inr ⟨_, rfl, by simp⟩
+  have l2 : HasUnitD R.reverse (.leaf [("m".toList, 1)]) := Or.inr ⟨_, rfl, by simp⟩
+  have d2 : DomD R (.bin "mul" (.leaf [("N".toList, 1)]) (.leaf [("m".toList, 1)])) :=
+    DomD.bin "mul" _ _ (.leaf _) (.leaf _) l1 l2 (Or.inl hm)
+  have h2 : HasUnitD R.reverse (.bin "mul" (.leaf [("N".toList, 1)]) (.leaf [("m".toList, 1)])) := by
+    obtain ⟨u, hu, hdim⟩ := C18_dim_preserved R hord hdw _ d2
+    refine Or.inr ⟨_, hu, fun he => ?_⟩
+    simp only at he
+    subst he
+    have := hdim "kg".toList
+    rw [hR] at this
+    simp only [dimT, hm, dimU, List.map, sumRat, dimSym, n1, n2, n3, n4, n5, if_false,
+      if_true] at this
+    norm_num at this
+  refine DomD.bin _ _ _ (.leaf _) d2 l0 h2 (Or.inr (Or.inr ⟨hadd, Or.inr (Or.inr fun s => ?_)⟩))
+  rw [hR]
+  simp only [dimT, hm, dimU, List.map, sumRat, dimSym, n1, n2, n3, if_false, if_true]
+  ring
 
 end QExPy
